@@ -44,6 +44,17 @@ var syncDeadline = 1000 * time.Millisecond
 
 var gateTimeouts int
 
+// stuckCalls counts submitting calls that did not return; after a few the tree is evidently broken in a way
+// that makes them hang and the driver stops spending a full deadline on each.
+var stuckCalls int
+
+func callWait() time.Duration {
+	if stuckCalls >= 10 {
+		return 50 * time.Millisecond
+	}
+	return syncDeadline
+}
+
 type evt struct {
 	del    bool
 	mb, id string
@@ -155,7 +166,10 @@ func runHub(n int, ops []string) []string {
 	hub := msghub.New(n, extension.NewHost())
 	go hub.Start(ctx)
 	g := &gate{entered: make(chan struct{}, 1), release: make(chan struct{})}
-	hub.AddListener(g)
+	if !within(syncDeadline, func() { hub.AddListener(g) }) {
+		cancel()
+		return []string{"SETUP-STUCK"}
+	}
 	var order []int
 	ls := map[int]*lstn{}
 	gated := false
@@ -264,7 +278,7 @@ func runHub(n int, ops []string) []string {
 			}
 			var l *rest.VerifListener
 			mb := vh.US(f[2])
-			ok := within(syncDeadline, func() {
+			ok := within(callWait(), func() {
 				if f[1] == "1" {
 					l = rest.VerifNewListenerV1(hub, mb)
 				} else {
@@ -272,6 +286,7 @@ func runHub(n int, ops []string) []string {
 				}
 			})
 			if !ok {
+				stuckCalls++
 				outs = append(outs, "stuck")
 				continue
 			}
@@ -288,9 +303,14 @@ func runHub(n int, ops []string) []string {
 			if f[1] != "-" {
 				m.fail = vh.AtoI(f[1])
 			}
+			// AddListener only submits an op: it must return without waiting for the hub.
+			if !within(callWait(), func() { hub.AddListener(m) }) {
+				stuckCalls++
+				outs = append(outs, "stuck")
+				continue
+			}
 			ls[k] = &lstn{mock: m}
 			order = append(order, k)
-			hub.AddListener(m)
 			outs = append(outs, ".")
 		case o[0] == 'r':
 			k := vh.AtoI(f[0][1:])
